@@ -11,6 +11,8 @@ import (
 	"github.com/idena-network/idena-go/blockchain/validation"
 	"github.com/idena-network/idena-go/common"
 	"github.com/idena-network/idena-go/consensus"
+	"github.com/idena-network/idena-go/crypto"
+	"github.com/idena-network/idena-go/secstore"
 	"github.com/idena-network/idena-go/verifutil"
 	dbm "github.com/tendermint/tm-db"
 )
@@ -26,9 +28,10 @@ const (
 	certForged
 	certWrongRound
 	certValid
+	certDuplicated // a quorum-sized list made of fewer distinct voters (the same valid signature repeated)
 )
 
-var certShapeNames = []string{"nil", "empty", "under-quorum", "forged", "wrong-round", "valid"}
+var certShapeNames = []string{"nil", "empty", "under-quorum", "forged", "wrong-round", "valid", "duplicated-votes"}
 
 // shapeCert builds a certificate of the wanted shape for block b on builder's head state
 // (= the validator view at b's parent). Returns nil,false if the shape cannot be formed.
@@ -57,6 +60,26 @@ func shapeCert(w *World, r *verifutil.Rng, builder *Replica, prev *types.Header,
 			return nil, false // a quorum of one cannot be undercut with a non-empty cert
 		}
 		c := &types.FullBlockCert{Votes: full.Votes[:need-1]}
+		return c.Compress(), true
+	case certDuplicated:
+		final := true
+		need := builder.Chain.GetCommitteeVotesThreshold(vc, final)
+		committee := vc.GetOnlineValidators(prev.Seed(), b.Height(), types.Final, builder.Chain.GetCommitteeSize(vc, final))
+		if committee == nil {
+			return nil, false
+		}
+		need -= committee.VotesCountSubtrahend(w.Cons.AgreementThreshold)
+		if need <= 1 || len(full.Votes) == 0 {
+			return nil, false
+		}
+		c := &types.FullBlockCert{}
+		distinct := r.Range(1, need-1)
+		if distinct > len(full.Votes) {
+			distinct = len(full.Votes)
+		}
+		for i := 0; len(c.Votes) < need+1; i++ {
+			c.Votes = append(c.Votes, full.Votes[i%distinct])
+		}
 		return c.Compress(), true
 	case certForged:
 		// enough signatures, but from keys outside the committee
@@ -164,7 +187,7 @@ func TestVerifC08(t *testing.T) {
 			continue
 		}
 		s := NewScenario(w, verifutil.NewRng(seed, 8))
-		s.Hostile, s.MaxTxs = 10, 5
+		s.Hostile, s.MaxTxs, s.EmptyPct = 10, 5, 25
 		r := verifutil.NewRng(seed, 88)
 		for i := 0; i < steps; i++ {
 			rep.Progress("C08 scenario %d seed %d step %d", sc, seed, i)
@@ -223,20 +246,42 @@ func forkExperiment(w *World, rep *verifutil.Report, r *verifutil.Rng, sc, step 
 			break
 		}
 	}
+	// a shorter fork can only win with a better first seed: pick, among the eligible owners, one whose
+	// VRF seed for the first fork block beats our own block at that height (if there is one)
+	if lenClass == 0 {
+		ownFirst := own[0]
+		for _, a := range append([]*Actor{w.God}, w.Nodes...) {
+			vc := B.AppState.ValidatorsCache
+			if !(vc.IsOnlineIdentity(a.Addr) || B.AppState.State.GodAddress() == a.Addr && vc.OnlineSize() == 0) {
+				continue
+			}
+			ss := secstore.NewSecStore()
+			ss.AddKey(crypto.FromECDSA(a.Key))
+			seedData := append(B.Head().Seed().Bytes(), common.ToBytes(B.Head().Height()+1)...)
+			sd, _ := ss.VrfEvaluate(seedData)
+			if bytes.Compare(sd[:], ownFirst.Seed().Bytes()) > 0 {
+				builderOwner = a
+				break
+			}
+		}
+	}
 	savedNow := w.Now()
 	defer setClock(savedNow)
 	var fork []types.BlockBundle
 	var forkTxs []*types.Transaction
 	w.ViewOverride = B
 	defer func() { w.ViewOverride = nil }()
-	tipShape := certShape(r.Pick(2, 3, 2, 2, 2, 6))
-	innerShape := certShape(r.Pick(4, 2, 1, 1, 1, 4))
+	tipShape := certShape(r.Pick(2, 3, 2, 2, 2, 6, 3))
+	if lenClass == 0 && r.Intn(3) != 0 {
+		tipShape = certValid
+	}
+	innerShape := certShape(r.Pick(4, 2, 1, 1, 1, 4, 0))
 	tamperTip := r.Intn(8) == 0
 	contentClass := "plain"
 	for j := 0; j < m; j++ {
 		prev := B.Head()
 		var b *types.Block
-		if builderOwner != nil && r.Intn(4) != 0 {
+		if builderOwner != nil && (lenClass == 0 || r.Intn(4) != 0) { // shorter forks only win with at least as many proposed blocks
 			if builderOwner != B.Owner {
 				nb, err := tmpReplica(w, builderOwner, B.DB, "forkBuilder")
 				if err != nil {
